@@ -221,6 +221,9 @@ def run(ctx: core.Ctx):
         d = disagree[0]
         ctx.correspondence_broken("decode/encode vs converter.to_value/to_str",
                                   {"count": len(disagree), "first": {"class": d[0], "function": d[1], "input": d[2], "real": [d[3], str(d[4])], "model": d[5]}})
+    from .. import b2check, gen
+    b2check.run_b2(ctx, lambda rng_, th: [(gen.conv_race(rng_, T), rng_.randrange(10 ** 9), 0) for _ in range(10000 if th else 300)], ["C04r"],
+                   label="concurrent decoding through the shared class-level converters", accept=False)
     ctx.info["exhaustive"] = False
     ctx.assumptions += [
         "Python float()/int() on plain decimal literals are exact/correctly rounded (CPython); exotic numeric syntax is informational only",
@@ -232,6 +235,9 @@ def run(ctx: core.Ctx):
 
 def replay(ctx, path):
     rp = json.load(open(path))["replay"]
+    if rp.get("path") == "b2":
+        from .. import b2check
+        return b2check.replay_b2(rp, ["C04r"])
     cls = subunit_class(rp["class"])
     T = core.tables()
     attr = next(f["attr"] for c in T["classes"] if c["py"] == rp["class"] for f in c["fns"] if f["name"] == rp["function"])
